@@ -1,23 +1,31 @@
 """C11 correspondence: most_general_observable, CommutingObservableGroup.__post_init__, ObservableCollection,
-_append_measurement_register, _append_measurement_circuit (+ decoding)  vs  Model/Grouping.v, Model/Measurement.v.
+_append_measurement_register, _append_measurement_circuit, _process_outcome  vs  Model/Grouping.v, Model/Measurement.v.
 
 Streams (group -> Coq checker):
   mgo        chk_mgo          most_general_observable directly (valid groups, incompatible, wrong length, empty, num_qubits)
   cog        chk_cog          CommutingObservableGroup(general, members) directly (phases, short/long members)
-  collection chk_collection   ObservableCollection on Pauli lists; unique()/group_commuting() results are recorded from the
-                              actual call and passed to the model as its oracle; their contract is monitored
-  meas_reg   chk_meas_reg     _append_measurement_register
-  meas_circ  chk_meas_circ    _append_measurement_circuit (qubit_locations given/omitted, three refusal classes, crashes)
+  collection chk_collection   ObservableCollection on Pauli lists (PauliList / list / tuple / generator / set inputs);
+                              unique()/group_commuting() results are recorded from the actual call and passed to the model as
+                              its oracle; their contract is monitored
+  meas_reg   chk_meas_reg     _append_measurement_register (group re-read after the call; input circuit untouched / same object)
+  meas_circ  chk_meas_circ    _append_measurement_circuit (qubit_locations omitted / list / tuple / range / numpy; two quantum
+                              registers, barriers; three refusal classes, crashes; group re-read after the call)
   reuse      chk_reuse        use then re-inspect: a group (incl. all-identity ones, and groups taken out of an ObservableCollection)
-                              is used for a register, a measurement circuit and _process_outcome, several times, and its
-                              pauli_indices / pauli_bitmasks / observables are re-read after every step
-  physics    chk_physics      random entangled preparation + the appended suffix, simulated by the numpy code below;
-                              the model's masks/decoding must reproduce Statevector.expectation_value(member)
+                              is used for a register, a measurement circuit and _process_outcome (int and str outcomes up to
+                              2^16), several times, and re-read after every step
+  physics    chk_physics      random entangled preparation (some ending in resets) + the appended suffix, simulated by the numpy
+                              code below; the model's masks/decoding must reproduce the reference expectation values
+  e2e        chk_e2e          collection -> every group -> implementation's suffix -> own-simulator law -> implementation's
+                              _process_outcome on every word -> lookup -> expectation of every ORIGINAL observable
+  forced     chk_forced       cases the harness itself found wrong (independent oracle flagged them, or the implementation made a
+                              later step impossible); they always fail in Coq so that the run judges and reports them
 `judge` is independent of the Coq model: plain Python restatement of the property text + own numpy simulator.
+`generate` never aborts on a misbehaving implementation: every step is recorded, failures become `forced` cases.
 """
 from __future__ import annotations
 
 import math
+import traceback
 from fractions import Fraction
 
 import numpy as np
@@ -50,10 +58,13 @@ CASE_TYPES = {
     "chk_meas_circ": "nat * nat * mc_tuple * cog_tuple * option (list nat) * res mc_tuple * cog_tuple",
     "chk_reuse": "cog_tuple * list cog_tuple * list (N * list Z)",
     "chk_physics": "pauli * list pauli * list (N * Q) * list Q",
+    "chk_e2e": "list pauli * list pauli * list (list pauli) * list (list (N * Q)) * list Q",
+    "chk_forced": "nat",
 }
 LET = {(False, False): 0, (True, False): 1, (True, True): 2, (False, True): 3}
 LETTERS = "IXYZ"
 OBS_NAME = "observable_measurements"
+TOL = 1e-9
 
 
 # ----------------------------------------------------------------------------
@@ -94,6 +105,57 @@ def coq_cog(c):
     return (coq_pauli(c[0]), coq_plist(c[1]), list(c[2]), [Nc(m) for m in c[3]])
 
 
+COLLECTION_FORMS = ["PauliList", "list", "tuple", "generator", "set"]
+
+
+def as_form(ps, form):
+    if form == "PauliList":
+        return PauliList(ps)
+    if form == "tuple":
+        return tuple(ps)
+    if form == "generator":
+        return (p for p in ps)
+    if form == "set":
+        return set(ps)
+    return list(ps)
+
+
+def locs_in_form(locs, form):
+    if locs is None:
+        return None
+    if form == "tuple":
+        return tuple(locs)
+    if form == "numpy":
+        return np.array(locs, dtype=int)
+    if form == "range" and locs and locs == list(range(locs[0], locs[0] + len(locs))):
+        return range(locs[0], locs[0] + len(locs))
+    return list(locs)
+
+
+def own_outcome_int(o):
+    """Python's reading of an outcome given as int, '0b..', '0x..' or a bit string (spaces between registers allowed)."""
+    if isinstance(o, int):
+        return o
+    s = o.replace(" ", "")
+    if s[:2] in ("0b", "0x"):
+        return int(s, 0)
+    return int(s, 2)
+
+
+def outcome_in_form(o, form, width, rng=None):
+    if form == "bin":
+        return bin(o)
+    if form == "hex":
+        return hex(o)
+    if form == "bits":
+        s = format(o, f"0{max(1, width)}b")
+        if rng is not None and len(s) > 1 and rng.integers(0, 2):
+            k = int(rng.integers(1, len(s)))
+            s = s[:k] + " " + s[k:]
+        return s
+    return int(o)
+
+
 # ----------------------------------------------------------------------------
 # recording wrapper around the oracle PauliList.group_commuting
 # ----------------------------------------------------------------------------
@@ -103,31 +165,36 @@ _orig_group_commuting = PauliList.group_commuting
 
 def _recording_group_commuting(self, *a, **k):
     r = _orig_group_commuting(self, *a, **k)
-    _REC.append((canon_plist(self), [canon_plist(g) for g in r], dict(k)))
+    _REC.append((canon_plist(self), [canon_plist(g) for g in r], [list(a), {kk: repr(v) for kk, v in k.items()}]))
     return r
 
 
-def run_collection(cs, aslist):
-    """Run ObservableCollection on canonical paulis; returns (call result, unique, groups) with the oracle's
-    actual outputs (None if the oracle was not reached)."""
+def run_collection(cs, form):
+    """Run ObservableCollection on canonical paulis given in `form`.  Returns dict(impl, unique, oracle_groups, oracle_calls, oc)
+    with the oracle's actual outputs of its FIRST call (None if it was not reached)."""
     ps = mk_plist(cs)
     del _REC[:]
     PauliList.group_commuting = _recording_group_commuting
     try:
-        r = call_canon(lambda: ObservableCollection(ps if aslist else PauliList(ps)))
+        r = call_canon(lambda: ObservableCollection(as_form(ps, form)))
     finally:
         PauliList.group_commuting = _orig_group_commuting
     uniq, groups = (None, None)
     if _REC:
-        uniq, groups, kw = _REC[0]
-        assert kw == {"qubit_wise": True} and len(_REC) == 1, _REC
+        uniq, groups, _ = _REC[0]
+    calls = [c[2] for c in _REC]
+    oc = None
     if r[0] == "ok":
         oc = r[1]
-        impl = ["ok", [canon_cog(g) for g in oc.groups],
-                [[canon_pauli(p), [[int(i), int(j)] for i, j in locs]] for p, locs in oc.lookup.items()]]
+        try:
+            impl = ["ok", [canon_cog(g) for g in oc.groups],
+                    [[canon_pauli(p), [[int(i), int(j)] for i, j in locs]] for p, locs in oc.lookup.items()]]
+        except Exception as e:  # noqa: BLE001
+            impl = ["crashed", f"result could not be read: {type(e).__name__}: {e}"]
+            oc = None
     else:
         impl = [r[0], r[1]]
-    return impl, uniq, groups
+    return dict(impl=impl, unique=uniq, oracle_groups=groups, oracle_calls=calls, oc=oc)
 
 
 # ----------------------------------------------------------------------------
@@ -158,7 +225,9 @@ def support(lets):
 
 
 def check_cog_text(c):
-    """The recorded group c = [general, members, indices, masks] against the property text. Returns problem or None."""
+    """The recorded group c = [general, members, indices, masks] against the property text. Returns problem or None.
+    (The text does not demand that the general observable be minimal: construct_general_observables may be overridden
+    to measure extra qubits; so a general letter where no member acts is NOT a problem.)"""
     g, ms, idx, masks = c
     if g[0] != 0:
         return f"general observable carries a phase: {g}"
@@ -175,14 +244,16 @@ def check_cog_text(c):
         acts = sorted(idx[i] for i in range(len(idx)) if (masks[j] >> i) & 1)
         if masks[j] >> len(idx) != 0 or acts != support(m[1]):
             return f"bitmask {masks[j]} of member {j} = {m} selects qubits {acts}, but the member acts on {support(m[1])}"
-    for q in idx:
-        if not any(m[1][q] != 0 for m in ms):
-            return f"general observable is non-identity at qubit {q} where no member acts"
     return None
 
 
+def extra_measured(c):
+    g, ms = c[0], c[1]
+    return [q for q in support(g[1]) if not any(len(m[1]) > q and m[1][q] != 0 for m in ms)]
+
+
 # ----------------------------------------------------------------------------
-# own numpy state-vector simulator (little-endian: qubit k = bit k of the basis index)
+# own numpy simulator (little-endian: qubit k = bit k of the basis index); a state is a list of unnormalised branches
 # ----------------------------------------------------------------------------
 _S2 = 1 / math.sqrt(2)
 _MATS = {
@@ -222,44 +293,34 @@ def sim_apply1(psi, n, m, q):
 
 
 def sim_apply(psi, n, name, params, qs):
+    if name == "barrier":
+        return psi
     if name == "cx":
         c, t = qs
-        out = psi.copy()
-        for i in range(len(psi)):
-            if (i >> c) & 1:
-                out[i] = psi[i ^ (1 << t)]
-        return out
+        idx = np.arange(len(psi))
+        return np.where((idx >> c) & 1, psi[idx ^ (1 << t)], psi)
     if name == "cz":
         a, b = qs
-        out = psi.copy()
-        for i in range(len(psi)):
-            if (i >> a) & 1 and (i >> b) & 1:
-                out[i] = -psi[i]
-        return out
+        idx = np.arange(len(psi))
+        return np.where(((idx >> a) & 1) & ((idx >> b) & 1), -psi, psi)
     if name == "swap":
         a, b = qs
-        out = psi.copy()
-        for i in range(len(psi)):
-            ba, bb = (i >> a) & 1, (i >> b) & 1
-            if ba != bb:
-                out[i] = psi[i ^ (1 << a) ^ (1 << b)]
-        return out
+        idx = np.arange(len(psi))
+        diff = ((idx >> a) & 1) != ((idx >> b) & 1)
+        return np.where(diff, psi[idx ^ (1 << a) ^ (1 << b)], psi)
     return sim_apply1(psi, n, _mat(name, params), qs[0])
 
 
 def sim_reset(psi, q):
     """reset = measure q, flip if 1: the two unnormalised branches P0|psi> and X P1|psi>."""
-    b0 = psi.copy()
-    b1 = np.zeros_like(psi)
-    for i in range(len(psi)):
-        if (i >> q) & 1:
-            b0[i] = 0
-            b1[i ^ (1 << q)] = psi[i]
+    idx = np.arange(len(psi))
+    one = ((idx >> q) & 1).astype(bool)
+    b0 = np.where(one, 0, psi)
+    b1 = np.where(one, 0, psi[idx ^ (1 << q)])
     return [b for b in (b0, b1) if float(np.vdot(b, b).real) > 0]
 
 
 def sim_prepare(n, ops):
-    """Returns the state as a list of unnormalised pure branches (an ensemble; more than one only after a reset)."""
     psi = np.zeros(2 ** n, dtype=complex)
     psi[0] = 1
     branches = [psi]
@@ -314,14 +375,14 @@ def rand_letters(rng, n, p_id=0.25):
     return [0 if rng.random() < p_id else int(rng.integers(1, 4)) for _ in range(n)]
 
 
-def gen_paulis(rng, n):
+def gen_paulis(rng, n, force40=False):
     """A Pauli list (canonical, phase 0) on n qubits; returns (list, mode)."""
     mode = int(rng.integers(0, 9))
-    k = int(rng.integers(1, 41)) if rng.integers(0, 4) == 0 else int(rng.integers(1, 9))
-    if mode == 0:  # dense random
+    k = 40 if force40 else int(rng.integers(1, 41)) if rng.integers(0, 4) == 0 else int(rng.integers(1, 9))
+    if mode == 0:
         ps = [rand_letters(rng, n, 0.1) for _ in range(k)]
         name = "dense"
-    elif mode == 1:  # sparse random
+    elif mode == 1:
         ps = [rand_letters(rng, n, 0.7) for _ in range(k)]
         name = "sparse"
     elif mode in (2, 3):  # restrictions of a few general observables -> large compatible groups
@@ -331,11 +392,11 @@ def gen_paulis(rng, n):
             g = gens[int(rng.integers(0, len(gens)))]
             ps.append([l if rng.integers(0, 2) else 0 for l in g])
         name = "restrictions"
-    elif mode == 4:  # duplicates
+    elif mode == 4:
         base = [rand_letters(rng, n) for _ in range(int(rng.integers(1, 4)))]
         ps = [base[int(rng.integers(0, len(base)))] for _ in range(k)]
         name = "duplicates"
-    elif mode == 5:  # all identity
+    elif mode == 5:
         ps = [[0] * n for _ in range(int(rng.integers(1, 4)))]
         name = "all-identity"
     elif mode == 6:  # mutually anticommuting (Jordan-Wigner Majoranas), shuffled, maybe with identity
@@ -347,14 +408,14 @@ def gen_paulis(rng, n):
         if rng.integers(0, 3) == 0:
             ps.append([0] * n)
         name = "anticommuting"
-    elif mode == 7:  # single-qubit Paulis + identity
+    elif mode == 7:
         ps = []
         for _ in range(k):
             l = [0] * n
             l[int(rng.integers(0, n))] = int(rng.integers(0, 4))
             ps.append(l)
         name = "weight<=1"
-    else:  # mixture with identity and duplicates
+    else:
         ps = [rand_letters(rng, n, 0.4) for _ in range(k)]
         ps.append([0] * n)
         ps.append(list(ps[0]))
@@ -371,20 +432,40 @@ def gen_prep(rng, nq):
     ops = []
     for q in range(nq):  # first layer: get off the computational basis
         name = ["h", "ry", "rx", "sx"][int(rng.integers(0, 4))]
-        ops.append([name, [float(rng.uniform(0.2, 2.9))] if name[0] == "r" else [], [q]])
+        ops.append([name, [float(rng.uniform(0.2, 2.9))] if name[0] == "r" else [], [q], []])
     for _ in range(int(rng.integers(nq, 4 * nq + 2))):
-        if nq >= 2 and rng.integers(0, 2):
+        r = int(rng.integers(0, 9))
+        if nq >= 2 and r < 4:
             a, b = [int(x) for x in rng.permutation(nq)[:2]]
-            ops.append([PREP_2Q[int(rng.integers(0, 3))], [], [a, b]])
+            ops.append([PREP_2Q[int(rng.integers(0, 3))], [], [a, b], []])
+        elif r == 4:
+            ops.append(["barrier", [], sorted(int(x) for x in rng.permutation(nq)[: int(rng.integers(1, nq + 1))]), []])
         else:
             name = PREP_1Q[int(rng.integers(0, len(PREP_1Q)))]
-            ops.append([name, [float(rng.uniform(-3.1, 3.1))] if name[0] == "r" else [], [int(rng.integers(0, nq))]])
+            ops.append([name, [float(rng.uniform(-3.1, 3.1))] if name[0] == "r" else [], [int(rng.integers(0, nq))], []])
     return ops
 
 
+def gen_qregs(rng, nq):
+    """None (one register "q") or a split of nq into two or three quantum registers."""
+    if nq < 2 or rng.integers(0, 3):
+        return None
+    a = int(rng.integers(1, nq))
+    sizes = [a, nq - a]
+    if sizes[1] >= 2 and rng.integers(0, 2):
+        b = int(rng.integers(1, sizes[1]))
+        sizes = [a, b, sizes[1] - b]
+    return sizes
+
+
 def build_circuit(recipe):
-    """recipe: dict(nq, cregs=[[name, size]...], ops=[[name, params, qubits, clbits]...]) -> QuantumCircuit"""
-    qc = QuantumCircuit(QuantumRegister(recipe["nq"], "q")) if recipe["nq"] else QuantumCircuit()
+    """recipe: dict(nq, qregs=None|[sizes], cregs=[[name, size]...], ops=[[name, params, qubits, clbits]...]) -> QuantumCircuit"""
+    if recipe.get("qregs"):
+        qc = QuantumCircuit(*[QuantumRegister(s, f"q{i}") for i, s in enumerate(recipe["qregs"])])
+    elif recipe["nq"]:
+        qc = QuantumCircuit(QuantumRegister(recipe["nq"], "q"))
+    else:
+        qc = QuantumCircuit()
     for name, size in recipe["cregs"]:
         qc.add_register(ClassicalRegister(size, name))
     for op in recipe["ops"]:
@@ -421,8 +502,12 @@ def simple_data(m):
 def mc_res(r, ctx):
     if r[0] == "ok":
         m = canon_mc(ctx, r[1])
-        return Res("ok", coq_mc(m)), ["ok", m]
-    return Res(r[0]), [r[0], r[1]]
+        return ["ok", m]
+    return [r[0], r[1]]
+
+
+def coq_mc_res(impl):
+    return Res("ok", coq_mc(impl[1])) if impl[0] == "ok" else Res(impl[0])
 
 
 def make_cog(c):
@@ -448,7 +533,7 @@ def gen_meas_recipe(rng, nq):
     nc = sum(s for _, s in cregs)
     ops = []
     for _ in range(int(rng.integers(0, 5))):
-        r = int(rng.integers(0, 5))
+        r = int(rng.integers(0, 6))
         if r == 0 and nq >= 2:
             a, b = [int(x) for x in rng.permutation(nq)[:2]]
             ops.append(["cx", [], [a, b], []])
@@ -458,9 +543,11 @@ def gen_meas_recipe(rng, nq):
             ops.append(["sx", [], [int(rng.integers(0, nq))], []])
         elif r == 3:
             ops.append(["rz", [float(rng.integers(-8, 9)) / 8], [int(rng.integers(0, nq))], []])
+        elif r == 4:
+            ops.append(["barrier", [], list(range(nq)), []])
         else:
             ops.append(["h", [], [int(rng.integers(0, nq))], []])
-    return dict(nq=nq, cregs=cregs, ops=ops)
+    return dict(nq=nq, qregs=gen_qregs(rng, nq), cregs=cregs, ops=ops)
 
 
 def fresh_ctx():
@@ -470,7 +557,18 @@ def fresh_ctx():
     return ctx, gh, gsx
 
 
-# ---- one case of each kind: build json case by running the implementation (shared by generate and rerun) ----
+def embed(lets, locs, nq):
+    out = [0] * nq
+    for k, l in enumerate(lets):
+        out[locs[k]] = l
+    return out
+
+
+def reference_state(qc, prep):
+    return DensityMatrix(qc) if any(o[0] == "reset" for o in prep) else Statevector(qc)
+
+
+# ---- one case of each kind: build the json case by running the implementation (shared by generate and rerun) ----
 def exec_mgo(case):
     ps = mk_plist(case["group"])
     arg = ps if (case["aslist"] or not ps) else PauliList(ps)
@@ -486,8 +584,8 @@ def exec_cog(case):
 
 
 def exec_collection(case):
-    impl, uniq, groups = run_collection(case["paulis"], case["aslist"])
-    case["impl"], case["unique"], case["oracle_groups"] = impl, uniq, groups
+    rc = run_collection(case["paulis"], case["form"])
+    case["impl"], case["unique"], case["oracle_groups"], case["oracle_calls"] = rc["impl"], rc["unique"], rc["oracle_groups"], rc["oracle_calls"]
     return case
 
 
@@ -500,32 +598,40 @@ def exec_meas(case):
     if case["kind"] == "meas_reg":
         case["input"] = canon_mc(ctx, qc)
         r = call_canon(_append_measurement_register, qc, cog, inplace=case["inplace"])
-        _, case["impl"] = mc_res(r, ctx)
     else:
         if case["reg_for"] is not None:  # register created by the implementation for this (possibly other) group
             qc = _append_measurement_register(qc, make_cog(case["reg_for"]))
         case["input"] = canon_mc(ctx, qc)
         kw = dict(inplace=case["inplace"])
         if case["locs"] is not None:
-            kw["qubit_locations"] = case["locs"]
+            kw["qubit_locations"] = locs_in_form(case["locs"], case.get("locs_form", "list"))
         r = call_canon(_append_measurement_circuit, qc, cog, **kw)
-        _, case["impl"] = mc_res(r, ctx)
+    case["impl"] = mc_res(r, ctx)
+    if case["inplace"]:
+        case["same_object"] = bool(r[0] != "ok" or r[1] is qc)
+    else:
+        case["input_untouched"] = bool(canon_mc(ctx, qc) == case["input"] and (r[0] != "ok" or r[1] is not qc))
     case["cog_after"] = canon_cog(cog)  # the group re-read after it has been used
     case["gh"], case["gsx"] = gh, gsx
     return case
 
 
 def exec_reuse(case):
-    """use then re-inspect.  case: cog | from_collection (paulis, group index), nq, steps = list of
-    ["register"] | ["circuit"] | ["outcome", int].  The group object is used for every step in turn and re-read after each."""
+    """use then re-inspect.  case: cog | from_collection (paulis, group index), steps = list of
+    ["register"] | ["circuit"] | ["outcome", int|str].  The group object is used for every step in turn and re-read after each."""
+    case["impl"] = dict(afters=[], outs=[], errors=[])
     if case.get("from_collection") is not None:
         cs, gi = case["from_collection"]
-        cog = ObservableCollection(PauliList(mk_plist(cs))).groups[gi]
+        r = call_canon(lambda: ObservableCollection(PauliList(mk_plist(cs))).groups[gi])
+        if r[0] != "ok":
+            case["cog_fields"] = None
+            case["impl"]["errors"].append([["collection"], r[0], r[1]])
+            return case
+        cog = r[1]
     else:
         cog = make_cog(case["cog"])
     case["cog_fields"] = canon_cog(cog)
     n = len(case["cog_fields"][0][1])
-    afters, outs, errors = [], [], []
     for st in case["steps"]:
         if st[0] == "register":
             r = call_canon(_append_measurement_register, QuantumCircuit(n), cog)
@@ -534,59 +640,149 @@ def exec_reuse(case):
         else:
             r = call_canon(_process_outcome, cog, st[1])
             if r[0] == "ok":
-                outs.append([st[1], [int(x) for x in r[1]], bool(all(float(x) in (1.0, -1.0) for x in r[1]))])
+                try:
+                    vals = [float(x) for x in r[1]]
+                    case["impl"]["outs"].append([st[1], [int(x) for x in vals], bool(all(x in (1.0, -1.0) for x in vals))])
+                except Exception as e:  # noqa: BLE001
+                    r = ("crashed", f"unreadable result {r[1]!r}: {e}")
         if r[0] != "ok":
-            errors.append([st, r[0], r[1]])
-        afters.append(canon_cog(cog))
-    case["impl"] = dict(afters=afters, outs=outs, errors=errors)
+            case["impl"]["errors"].append([st, r[0], r[1]])
+        case["impl"]["afters"].append(canon_cog(cog))
     return case
 
 
+def _measure_group(ctx, qc, cog, locs, nq, omit, locs_form, inplace):
+    """register + measurement circuit for one group on (a copy of) qc; returns call result and the canonical pieces"""
+    r0 = call_canon(_append_measurement_register, qc, cog)
+    if r0[0] != "ok":
+        return [r0[0], f"_append_measurement_register: {r0[1]}"]
+    kw = {} if (omit and locs == list(range(nq))) else {"qubit_locations": locs_in_form(locs, locs_form)}
+    r = call_canon(_append_measurement_circuit, r0[1], cog, inplace=inplace, **kw)
+    if r[0] != "ok":
+        return [r[0], f"_append_measurement_circuit: {r[1]}"]
+    m = canon_mc(ctx, r[1])
+    regs = [b for f, b in m["cregs"] if f]
+    if not regs:
+        return ["crashed", "no observable_measurements register in the result"]
+    return ["ok", dict(suffix=simple_data(m)[len(qc.data):], reg_bits=regs[0])]
+
+
 def exec_physics(case):
-    """preparation on nq qubits, subsystem qubit k sits on circuit qubit locs[k]; one group of a collection."""
+    """preparation on nq qubits, subsystem qubit k sits on circuit qubit locs[k]; one group."""
     nq, locs = case["nq"], case["locs"]
     ctx, gh, gsx = fresh_ctx()
-    qc = build_circuit(dict(nq=nq, cregs=case["cregs"], ops=case["prep"]))
-    has_reset = any(o[0] == "reset" for o in case["prep"])
-    sv = DensityMatrix(qc) if has_reset else Statevector(qc)
+    qc = build_circuit(dict(nq=nq, qregs=case.get("qregs"), cregs=case["cregs"], ops=case["prep"]))
+    ref = reference_state(qc, case["prep"])
     cog = make_cog(case["cog"])
     case["cog_fields"] = canon_cog(cog)
-    qc2 = _append_measurement_register(qc, cog)
-    identity = locs == list(range(nq)) and case["omit_locs"]
-    r = call_canon(_append_measurement_circuit, qc2, cog, **({} if identity else {"qubit_locations": locs}))
+    case["impl"] = _measure_group(ctx, qc, cog, locs, nq, case["omit_locs"], case.get("locs_form", "list"), case.get("inplace", False))
     case["cog_after"] = canon_cog(cog)
-    if r[0] != "ok":
-        case["impl"] = [r[0], r[1]]
+    case["sv_expect"] = [float(np.real(ref.expectation_value(mk_pauli(0, embed(mem[1], locs, nq))))) for mem in case["cog"][1]]
+    return case
+
+
+def exec_e2e(case):
+    """collection -> every group measured on the same preparation -> implementation's decoder on every outcome word."""
+    nq, locs = case["nq"], case["locs"]
+    ctx, gh, gsx = fresh_ctx()
+    qc = build_circuit(dict(nq=nq, qregs=case.get("qregs"), cregs=[], ops=case["prep"]))
+    ref = reference_state(qc, case["prep"])
+    rc = run_collection(case["paulis"], case["form"])
+    case["unique"], case["oracle_groups"] = rc["unique"], rc["oracle_groups"]
+    case["sv_expect"] = [float(np.real(ref.expectation_value(mk_pauli(0, embed(p[1], locs, nq))))) for p in case["paulis"]]
+    if rc["oc"] is None:
+        case["impl"] = [rc["impl"][0] if rc["impl"][0] != "ok" else "crashed", rc["impl"][1]]
         return case
-    m = canon_mc(ctx, r[1])
-    nprefix = len(qc.data)
-    case["impl"] = ["ok", dict(suffix=simple_data(m)[nprefix:], reg_bits=[b for f, b in m["cregs"] if f][0])]
-    # reference expectation values from qiskit (members embedded into the circuit's qubits)
-    exp = []
-    for mem in case["cog"][1]:
-        lets = [0] * nq
-        for k, l in enumerate(mem[1]):
-            lets[locs[k]] = l
-        exp.append(float(np.real(sv.expectation_value(mk_pauli(0, lets)))))
-    case["sv_expect"] = exp
+    branches = sim_prepare(nq, [(o[0], o[1], o[2]) for o in case["prep"]])
+    meas = []
+    for cog in rc["oc"].groups:
+        mg = _measure_group(ctx, qc, cog, locs, nq, case["omit_locs"], case.get("locs_form", "list"), False)
+        if mg[0] == "ok":
+            try:
+                law = sim_register_law(branches, nq, mg[1]["suffix"], mg[1]["reg_bits"])
+            except ValueError as e:
+                law = []
+                mg[1]["sim_error"] = str(e)
+            proc = []
+            for wd, _p in law:
+                o = outcome_in_form(wd, case.get("outcome_form", "int"), len(mg[1]["reg_bits"]))
+                r = call_canon(_process_outcome, cog, o)
+                try:
+                    proc.append([wd, o, [float(x) for x in r[1]]] if r[0] == "ok" else [wd, o, [r[0], r[1]]])
+                except Exception as e:  # noqa: BLE001
+                    proc.append([wd, o, ["crashed", f"unreadable result: {e}"]])
+            mg[1]["proc"] = proc
+        meas.append(mg)
+    try:
+        after = [canon_cog(g) for g in rc["oc"].groups]
+    except Exception as e:  # noqa: BLE001
+        after = f"{type(e).__name__}: {e}"
+    case["impl"] = ["ok", dict(groups=rc["impl"][1], lookup=rc["impl"][2], meas=meas, after=after)]
     return case
 
 
 def own_law(case):
-    psi = sim_prepare(case["nq"], [(o[0], o[1], o[2]) for o in case["prep"]])
-    return sim_register_law(psi, case["nq"], case["impl"][1]["suffix"], case["impl"][1]["reg_bits"])
+    branches = sim_prepare(case["nq"], [(o[0], o[1], o[2]) for o in case["prep"]])
+    return sim_register_law(branches, case["nq"], case["impl"][1]["suffix"], case["impl"][1]["reg_bits"])
 
 
 # ----------------------------------------------------------------------------
+class Emitter:
+    """Adds cases; runs `judge` on every case (contract judge_accepts_clean_case); a flagged case gets a `forced` twin."""
+
+    def __init__(self, w):
+        self.w = w
+        self.nforced = 0
+        self.max_dev = 0.0
+
+    def forced(self, case, why):
+        c = dict(case)
+        c["forced_why"] = why
+        self.w.add("forced", "chk_forced", self.nforced, c, nontrivial=True, key=self.nforced)
+        self.nforced += 1
+        self.w.count("forced.kind", case.get("kind"))
+
+    def judged(self, case):
+        try:
+            v = judge(case)
+            self.w.contract("judge_total", True)
+        except Exception as e:  # noqa: BLE001
+            self.w.contract("judge_total", False)
+            self.w.notes.append(f"judge raised on a {case.get('kind')} case: {type(e).__name__}: {e}")
+            v = dict(violates=False, detail="judge raised")
+        self.w.contract("judge_accepts_clean_case", not v["violates"])
+        self.max_dev = max(self.max_dev, v.get("max_dev", 0.0))
+        return v
+
+    def add(self, group, checker, coq_case, case, nontrivial=True, key=None):
+        v = self.judged(case)
+        self.w.add(group, checker, coq_case, case, nontrivial=nontrivial, key=key)
+        if v["violates"]:
+            self.forced(case, "independent oracle: " + str(v["detail"])[:300])
+        return v
+
+    def guard(self, stream, fn):
+        """run one iteration; an exception inside the harness becomes a forced case instead of aborting generate"""
+        try:
+            fn()
+        except Exception as e:  # noqa: BLE001
+            tb = traceback.format_exc().splitlines()[-6:]
+            self.w.notes.append(f"{stream}: harness iteration raised {type(e).__name__}: {e}")
+            self.forced(dict(kind="harness_error", stream=stream, error=f"{type(e).__name__}: {e}", trace=tb), "harness iteration raised")
+
+
 def generate(rng, tier, outdir):
     w = CaseWriter(outdir, IMPORTS, case_types=CASE_TYPES)
+    em = Emitter(w)
     quick = tier == "quick"
     n_coll = 450 if quick else 8000
-    n_mgo = 350 if quick else 6000
-    n_cog = 300 if quick else 5000
-    n_meas = 350 if quick else 6000
+    n_mgo = 300 if quick else 6000
+    n_cog = 250 if quick else 5000
+    n_meas = 300 if quick else 6000
     n_phys = 160 if quick else 3000
     n_reuse = 150 if quick else 2500
+    n_e2e = 60 if quick else 1200
+    max_sim_n = 4 if quick else 6
 
     # the physics specification of Model/Measurement.v part B is the matrices qiskit uses
     w.contract("gate_matrix_h", np.allclose(Operator(HGate()).data, _MATS["h"], atol=1e-12))
@@ -595,47 +791,65 @@ def generate(rng, tier, outdir):
 
     valid_groups = []  # canonical groups seen in collections, reused by the mgo / cog / meas streams
 
-    # ---------------- collection ----------------
-    for it in range(n_coll):
-        n = int(rng.integers(1, 7))
-        cs, mode = gen_paulis(rng, n)
-        malformed = rng.integers(0, 12) == 0
-        if malformed:  # phases: the property speaks of phase-free lists only; the code must refuse
-            for _ in range(int(rng.integers(1, 3))):
-                cs[int(rng.integers(0, len(cs)))][0] = int(rng.integers(1, 4))
-            mode = "phase"
-        aslist = bool(rng.integers(0, 3) == 0)
-        case = exec_collection(dict(kind="collection", n=n, paulis=cs, aslist=aslist))
-        impl, uniq, groups = case["impl"], case["unique"], case["oracle_groups"]
-        assert uniq is not None, case
+    def add_collection_case(case, mode="-"):
+        """emit a collection case (shared by several streams); returns True iff usable (ok result)"""
+        cs, impl, uniq, groups = case["paulis"], case["impl"], case["unique"], case["oracle_groups"]
+        if uniq is None:  # the oracle was never reached: nothing to give to the model
+            v = em.judged(case)
+            em.forced(case, f"group_commuting was not called; result {impl[0]}; oracle says violates={v['violates']}")
+            return False
+        w.contract("oracle_called_once_qubit_wise", case["oracle_calls"] == [[[], {"qubit_wise": "True"}]])
         w.contract("unique", contract_unique(cs, uniq))
         w.contract("group_commuting", contract_groups(uniq, groups))
         if impl[0] == "ok":
             exp = Res("ok", ([coq_cog(c) for c in impl[1]],
                              [(coq_pauli(p), [(i, j) for i, j in locs]) for p, locs in impl[2]]))
+        else:
+            exp = Res(impl[0])
+        em.add("collection", "chk_collection",
+               (coq_plist(cs), coq_plist(uniq), [coq_plist(g) for g in groups], exp), case,
+               nontrivial=(impl[0] == "ok" and len(uniq) > 1))
+        w.count("collection.mode", mode)
+        w.count("collection.len", "40" if len(cs) == 40 else min(30, 10 * (len(cs) // 10)))
+        w.count("collection.form", case["form"])
+        w.count("collection.outcome", impl[0])
+        return impl[0] == "ok"
+
+    # ---------------- collection ----------------
+    def one_collection(it):
+        n = int(rng.integers(1, 7))
+        cs, mode = gen_paulis(rng, n, force40=(it % 90 == 7))
+        if rng.integers(0, 12) == 0:  # phases: the property speaks of phase-free lists only; the code must refuse
+            for _ in range(int(rng.integers(1, 3))):
+                cs[int(rng.integers(0, len(cs)))][0] = int(rng.integers(1, 4))
+            mode = "phase"
+        form = COLLECTION_FORMS[int(rng.integers(0, 5))] if rng.integers(0, 2) else "PauliList"
+        case = exec_collection(dict(kind="collection", n=n, paulis=cs, form=form))
+        w.count("collection.n", n)
+        if add_collection_case(case, mode):
+            impl = case["impl"]
             for c in impl[1]:
                 if len(valid_groups) < 4000:
                     valid_groups.append([c[0], c[1]])
+                if extra_measured(c):
+                    w.count("collection.note", "general observable measures a qubit no member acts on")
             w.count("collection.groups", len(impl[1]))
             w.count("collection.max_group", max(len(c[1]) for c in impl[1]))
-        else:
-            exp = Res(impl[0])
-        w.add("collection", "chk_collection",
-              (coq_plist(cs), coq_plist(uniq), [coq_plist(g) for g in groups], exp), case,
-              nontrivial=(impl[0] == "ok" and len(uniq) > 1))
-        w.count("collection.n", n)
-        w.count("collection.mode", mode)
-        w.count("collection.len", min(40, 10 * (len(cs) // 10)))
-        w.count("collection.path", "list" if aslist else "PauliList")
-        w.count("collection.outcome", impl[0])
+
+    for it in range(n_coll):
+        em.guard("collection", lambda: one_collection(it))
+
     # empty python list (PauliList refuses to be empty): outside the property, model says Crashed
-    case = dict(kind="collection", n=0, paulis=[], aslist=True)
-    r = call_canon(lambda: ObservableCollection([]))
-    case["impl"], case["unique"], case["oracle_groups"] = [r[0], r[1] if r[0] != "ok" else None], [], []
-    w.add("collection", "chk_collection", ([], [], [], Res(r[0]) if r[0] != "ok" else Res("ok", ([], []))), case, nontrivial=False)
+    def empty_collection():
+        case = dict(kind="collection", n=0, paulis=[], form="list")
+        r = call_canon(lambda: ObservableCollection([]))
+        case["impl"], case["unique"], case["oracle_groups"] = [r[0], r[1] if r[0] != "ok" else None], [], []
+        em.add("collection", "chk_collection", ([], [], [], Res(r[0]) if r[0] != "ok" else Res("ok", ([], []))), case, nontrivial=False)
+
+    em.guard("collection", empty_collection)
 
     # ---------------- most_general_observable ----------------
-    for it in range(n_mgo):
+    def one_mgo():
         n = int(rng.integers(1, 7))
         mode = int(rng.integers(0, 10))
         nq = None
@@ -674,12 +888,15 @@ def generate(rng, tier, outdir):
         case = exec_mgo(dict(kind="mgo", group=group, nq=nq, aslist=aslist))
         impl = case["impl"]
         exp = Res("ok", coq_pauli(impl[1])) if impl[0] == "ok" else Res(impl[0])
-        w.add("mgo", "chk_mgo", (coq_plist(group), Opt(nq), exp), case, nontrivial=(impl[0] == "ok" and len(group) > 1))
+        em.add("mgo", "chk_mgo", (coq_plist(group), Opt(nq), exp), case, nontrivial=(impl[0] == "ok" and len(group) > 1))
         w.count("mgo.mode", name)
         w.count("mgo.outcome", impl[0])
 
+    for it in range(n_mgo):
+        em.guard("mgo", one_mgo)
+
     # ---------------- CommutingObservableGroup ----------------
-    for it in range(n_cog):
+    def one_cog():
         n = int(rng.integers(1, 7))
         mode = int(rng.integers(0, 8))
         if mode < 3 and valid_groups:
@@ -707,12 +924,15 @@ def generate(rng, tier, outdir):
         case = exec_cog(dict(kind="cog", general=general, members=members))
         impl = case["impl"]
         exp = Res("ok", (list(impl[1][0]), [Nc(m) for m in impl[1][1]])) if impl[0] == "ok" else Res(impl[0])
-        w.add("cog", "chk_cog", (coq_pauli(general), coq_plist(members), exp), case, nontrivial=(impl[0] == "ok" and len(impl[1][0]) > 0))
+        em.add("cog", "chk_cog", (coq_pauli(general), coq_plist(members), exp), case, nontrivial=(impl[0] == "ok" and len(impl[1][0]) > 0))
         w.count("cog.mode", name)
         w.count("cog.outcome", impl[0])
 
+    for it in range(n_cog):
+        em.guard("cog", one_cog)
+
     # ---------------- measurement register / circuit ----------------
-    for it in range(n_meas):
+    def one_meas():
         n = int(rng.integers(1, 6))
         if rng.integers(0, 2) and valid_groups:
             g = valid_groups[int(rng.integers(0, len(valid_groups)))]
@@ -758,33 +978,44 @@ def generate(rng, tier, outdir):
             locs = [int(x) for x in rng.permutation(nq)[:n]]
             locs[int(rng.integers(0, n))] = nq + int(rng.integers(0, 2))
             name = "location-out-of-range"
+        elif mode == 10:  # contiguous window into a larger circuit (also as range)
+            nq = n + int(rng.integers(1, 3))
+            a = int(rng.integers(0, nq - n + 1))
+            locs = list(range(a, a + n))
+            name = "locations-window"
         recipe = gen_meas_recipe(rng, nq)
         inplace = bool(rng.integers(0, 3) == 0)
+        locs_form = ["list", "tuple", "numpy", "range"][int(rng.integers(0, 4))] if locs is not None else None
         # register step on the bare circuit (also: a second register of that name crashes)
         rcase = dict(kind="meas_reg", recipe=recipe, cog=cogc, inplace=inplace)
         if rng.integers(0, 8) == 0:
             rcase["recipe"] = dict(recipe, cregs=recipe["cregs"] + [[OBS_NAME, int(rng.integers(0, 3))]])
         rcase = exec_meas(rcase)
         ri = rcase["impl"]
-        w.add("meas_reg", "chk_meas_reg",
-              (coq_mc(rcase["input"]), coq_cog(rcase["cog_fields"]), Res("ok", coq_mc(ri[1])) if ri[0] == "ok" else Res(ri[0]),
-               coq_cog(rcase["cog_after"])),
-              rcase, nontrivial=(ri[0] == "ok"))
+        em.add("meas_reg", "chk_meas_reg",
+               (coq_mc(rcase["input"]), coq_cog(rcase["cog_fields"]), coq_mc_res(ri), coq_cog(rcase["cog_after"])),
+               rcase, nontrivial=(ri[0] == "ok"))
         w.count("meas_reg.outcome", ri[0])
         w.count("meas_reg.size", len(rcase["cog_fields"][2]) or "dummy")
         # measurement step
-        case = exec_meas(dict(kind="meas_circ", recipe=recipe, cog=cogc, inplace=inplace, locs=locs, reg_for=reg_for))
+        case = exec_meas(dict(kind="meas_circ", recipe=recipe, cog=cogc, inplace=inplace, locs=locs, locs_form=locs_form, reg_for=reg_for))
         mi = case["impl"]
-        w.add("meas_circ", "chk_meas_circ",
-              (case["gh"], case["gsx"], coq_mc(case["input"]), coq_cog(case["cog_fields"]),
-               Opt(list(locs), some=True) if locs is not None else Opt(),
-               Res("ok", coq_mc(mi[1])) if mi[0] == "ok" else Res(mi[0]), coq_cog(case["cog_after"])),
-              case, nontrivial=(mi[0] == "ok" and len(mi[1]["data"]) > len(case["input"]["data"]) + 1))
+        em.add("meas_circ", "chk_meas_circ",
+               (case["gh"], case["gsx"], coq_mc(case["input"]), coq_cog(case["cog_fields"]),
+                Opt(list(locs), some=True) if locs is not None else Opt(),
+                coq_mc_res(mi), coq_cog(case["cog_after"])),
+               case, nontrivial=(mi[0] == "ok" and len(mi[1]["data"]) > len(case["input"]["data"]) + 1))
         w.count("meas_circ.mode", name)
         w.count("meas_circ.outcome", mi[0])
+        w.count("meas_circ.locs_form", locs_form)
+        w.count("meas_circ.qregs", len(recipe["qregs"]) if recipe["qregs"] else 1)
+        w.count("meas_circ.inplace", inplace)
+
+    for it in range(n_meas):
+        em.guard("meas", one_meas)
 
     # ---------------- use then re-inspect ----------------
-    for it in range(n_reuse):
+    def one_reuse():
         n = int(rng.integers(1, 6))
         case = dict(kind="reuse")
         mode = int(rng.integers(0, 4))
@@ -794,10 +1025,12 @@ def generate(rng, tier, outdir):
         elif mode == 1:  # a group taken out of a collection that contains the identity
             cs, _ = gen_paulis(rng, n)
             cs = cs[:8] + [[0, [0] * n]]
-            impl, _, _ = run_collection(cs, False)
-            gi = [i for i, c in enumerate(impl[1]) if any(not any(m[1]) for m in c[1])][0]
-            if rng.integers(0, 2):
-                gi = int(rng.integers(0, len(impl[1])))
+            ccase = exec_collection(dict(kind="collection", n=n, paulis=cs, form="PauliList"))
+            if not add_collection_case(ccase, "for-reuse"):
+                return
+            groups = ccase["impl"][1]
+            with_id = [i for i, c in enumerate(groups) if any(not any(m[1]) for m in c[1])]
+            gi = with_id[0] if (with_id and rng.integers(0, 2)) else int(rng.integers(0, len(groups)))
             case["from_collection"] = [cs, gi]
             name = "from-collection"
         elif mode == 2 and valid_groups:
@@ -809,34 +1042,52 @@ def generate(rng, tier, outdir):
             name = "consistent"
         steps = []
         for _ in range(int(rng.integers(2, 7))):
-            r = int(rng.integers(0, 4))
-            steps.append(["register"] if r == 0 else ["circuit"] if r == 1 else ["outcome", int(rng.integers(0, 1 << 9))])
+            r = int(rng.integers(0, 5))
+            if r == 0:
+                steps.append(["register"])
+            elif r == 1:
+                steps.append(["circuit"])
+            else:
+                o = int(rng.integers(0, 1 << int(rng.integers(1, 17))))
+                form = ["int", "int", "bin", "hex", "bits"][int(rng.integers(0, 5))]
+                steps.append(["outcome", outcome_in_form(o, form, int(rng.integers(1, 17)), rng)])
+                w.count("reuse.outcome_form", form)
         case["steps"] = steps
         case = exec_reuse(case)
         before = case["cog_fields"]
         ri = case["impl"]
-        assert not ri["errors"], ri["errors"]
-        w.add("reuse", "chk_reuse",
-              (coq_cog(before), [coq_cog(a) for a in ri["afters"]], [(Nc(o), [Zc(x) for x in r]) for o, r, _ in ri["outs"]]),
-              case, nontrivial=True)
+        if before is None or ri["errors"]:
+            v = em.judged(case)
+            em.forced(case, f"using the group failed: {ri['errors']}; oracle says violates={v['violates']}")
+            return
+        em.add("reuse", "chk_reuse",
+               (coq_cog(before), [coq_cog(a) for a in ri["afters"]], [(Nc(own_outcome_int(o)), [Zc(x) for x in r]) for o, r, _ in ri["outs"]]),
+               case, nontrivial=True)
         w.count("reuse.mode", name)
         w.count("reuse.measured_qubits", len(before[2]) or "dummy")
-        w.count("reuse.steps", len(steps))
+
+    for it in range(n_reuse):
+        em.guard("reuse", one_reuse)
 
     # ---------------- physics ----------------
-    max_dev = 0.0
-    for it in range(n_phys):
-        n = int(rng.integers(1, 5))
-        nq = n if rng.integers(0, 2) else min(4, n + int(rng.integers(0, 2)))
-        cs, mode = gen_paulis(rng, n)
-        impl, uniq, groups = run_collection(cs, False)
-        assert impl[0] == "ok"
-        gi = int(rng.integers(0, len(impl[1])))
-        cogc = [impl[1][gi][0], impl[1][gi][1][:6]]
+    def gen_physical_setting(n):
+        nq = n if rng.integers(0, 2) else min(max_sim_n, n + int(rng.integers(0, 3)))
         omit = bool(rng.integers(0, 2))
         locs = list(range(nq))[:n] if (nq == n and omit) else [int(x) for x in rng.permutation(nq)[:n]]
+        return nq, omit, locs
+
+    def one_physics(it):
+        n = int(rng.integers(1, max_sim_n + 1))
+        nq, omit, locs = gen_physical_setting(n)
+        cs, mode = gen_paulis(rng, n)
+        ccase = exec_collection(dict(kind="collection", n=n, paulis=cs, form=["PauliList", "list"][int(rng.integers(0, 2))]))
+        if not add_collection_case(ccase, "for-physics"):
+            return
+        groups = ccase["impl"][1]
+        gi = int(rng.integers(0, len(groups)))
+        cogc = [groups[gi][0], groups[gi][1]]
         cregs = [["qpd_measurements", int(rng.integers(0, 2))]] if rng.integers(0, 2) else []
-        prep = [[o[0], o[1], o[2], []] for o in gen_prep(rng, nq)]
+        prep = gen_prep(rng, nq)
         nreset = 0
         if rng.integers(0, 3) == 0:  # the preparation ends with reset(s), preferably on measured qubits
             meas_q = [locs[k] for k in support(cogc[0][1])] or [locs[0]]
@@ -844,37 +1095,78 @@ def generate(rng, tier, outdir):
             for q in [pool[i] for i in rng.permutation(len(pool))[: int(rng.integers(1, 3))]]:
                 prep.append(["reset", [], [int(q)], []])
                 nreset += 1
+        case = exec_physics(dict(kind="physics", nq=nq, qregs=gen_qregs(rng, nq), locs=locs, omit_locs=omit,
+                                 locs_form=["list", "tuple", "numpy"][int(rng.integers(0, 3))], inplace=bool(rng.integers(0, 4) == 0),
+                                 cregs=cregs, prep=prep, cog=cogc))
         w.count("physics.final_resets", nreset)
-        case = exec_physics(dict(kind="physics", nq=nq, locs=locs, omit_locs=omit, cregs=cregs, prep=prep, cog=cogc))
-        assert case["impl"][0] == "ok", case["impl"]
-        law = own_law(case)
-        case["law"] = [[b, Fraction(p).numerator, Fraction(p).denominator] for b, p in law]
-        v = judge(case)
-        # a case flagged by the independent oracle is forced to fail the Coq check (empty expectation list), so that the
-        # run reports it even if model and implementation agree with each other
-        expect = [] if v["violates"] else [Qc(Fraction(e)) for e in case["sv_expect"]]
-        w.add("physics", "chk_physics",
-              (coq_pauli(cogc[0]), coq_plist(cogc[1]), [(Nc(b), Qc(Fraction(p))) for b, p in law], expect),
-              case, nontrivial=(len(case["cog_fields"][2]) > 0), key=it)
-        max_dev = max(max_dev, v.get("max_dev", 0.0))
-        w.count("physics.judge", "violates" if v["violates"] else "ok")
         w.count("physics.measured_qubits", len(case["cog_fields"][2]) or "dummy")
         w.count("physics.nq", nq)
-    w.notes.append(f"physics: max |decoded - <member>| over all members = {max_dev:.3e}")
+        if case["impl"][0] != "ok":
+            v = em.judged(case)
+            em.forced(case, f"measurement circuit could not be built: {case['impl']}; oracle says violates={v['violates']}")
+            return
+        law = own_law(case)
+        case["law"] = [[b, Fraction(p).numerator, Fraction(p).denominator] for b, p in law]
+        em.add("physics", "chk_physics",
+               (coq_pauli(cogc[0]), coq_plist(cogc[1]), [(Nc(b), Qc(Fraction(p))) for b, p in law],
+                [Qc(Fraction(e)) for e in case["sv_expect"]]),
+               case, nontrivial=(len(case["cog_fields"][2]) > 0), key=it)
+
+    for it in range(n_phys):
+        em.guard("physics", lambda: one_physics(it))
+
+    # ---------------- end to end ----------------
+    def one_e2e(it):
+        n = int(rng.integers(1, max_sim_n + 1))
+        nq, omit, locs = gen_physical_setting(n)
+        cs, mode = gen_paulis(rng, n)
+        cs = cs[:12]
+        prep = gen_prep(rng, nq)
+        if rng.integers(0, 4) == 0:
+            prep.append(["reset", [], [int(rng.integers(0, nq))], []])
+        case = exec_e2e(dict(kind="e2e", n=n, nq=nq, qregs=gen_qregs(rng, nq), locs=locs, omit_locs=omit,
+                             locs_form=["list", "tuple", "numpy"][int(rng.integers(0, 3))],
+                             form=COLLECTION_FORMS[int(rng.integers(0, 5))],
+                             outcome_form=["int", "bin", "hex", "bits"][int(rng.integers(0, 4))], prep=prep, paulis=cs))
+        w.count("e2e.form", case["form"])
+        w.count("e2e.outcome_form", case["outcome_form"])
+        w.count("e2e.nq", nq)
+        impl = case["impl"]
+        if impl[0] != "ok" or case["unique"] is None or any(m[0] != "ok" or "sim_error" in m[1] for m in impl[1]["meas"]):
+            v = em.judged(case)
+            em.forced(case, f"end-to-end run incomplete: {str(impl)[:300]}; oracle says violates={v['violates']}")
+            return
+        laws = []
+        for m in impl[1]["meas"]:
+            laws.append([(Nc(wd), Qc(Fraction(p))) for wd, p in sim_register_law(
+                sim_prepare(nq, [(o[0], o[1], o[2]) for o in prep]), nq, m[1]["suffix"], m[1]["reg_bits"])])
+        em.add("e2e", "chk_e2e",
+               (coq_plist(cs), coq_plist(case["unique"]), [coq_plist(g) for g in case["oracle_groups"]], laws,
+                [Qc(Fraction(e)) for e in case["sv_expect"]]),
+               case, nontrivial=True, key=it)
+
+    for it in range(n_e2e):
+        em.guard("e2e", lambda: one_e2e(it))
+
+    w.notes.append(f"physics/e2e: max |decoded - expectation| over all members/observables = {em.max_dev:.3e}")
+    w.notes.append(f"forced cases: {em.nforced}")
 
     return w.finish(
         rule="collection: Pauli lists on 1..6 qubits, 1..40 entries (dense, sparse, restrictions of few general observables, duplicates, "
-        "all-identity, mutually anticommuting Majorana sets, weight<=1, mixtures; PauliList and python-list inputs; 1/12 with phases = "
-        "malformed); unique/group_commuting results recorded from the actual call and fed to the model, contract monitored. mgo/cog: "
-        "groups taken from those collections (shuffled, random phases) + random/incompatible/wrong-length/empty/num_qubits streams. "
-        "meas_reg/meas_circ: small circuits with other classical registers and measurements, identity map or qubit_locations (permuted, "
-        "repeated), refusal classes (count mismatch x2, missing register, wrong register size), out-of-range location and duplicate "
-        "register crashes; in both the group is re-read after the call and must be unchanged. reuse: a group (all-identity, taken out of a "
-        "collection, or consistent random) is used 2..6 times (register / measurement circuit / _process_outcome on 9-bit outcomes) and "
-        "re-read after every step. physics: entangled random preparations on 1..4 qubits, one third ending with 1-2 resets (mostly on "
-        "measured qubits), suffix appended by the implementation, outcome law from the harness's own numpy simulator (ensemble of "
-        "branches after resets), expectation values from qiskit Statevector/DensityMatrix. distinct = distinct Coq case literal; "
-        "non-trivial = successful call with >1 observable / non-empty measurement"
+        "all-identity, mutually anticommuting Majorana sets, weight<=1, mixtures; exactly-40 lists planted; PauliList / list / tuple / "
+        "generator / set inputs; 1/12 with phases = malformed); unique/group_commuting results recorded from the actual call and fed to "
+        "the model, contract monitored. mgo/cog: groups taken from those collections (shuffled, random phases) + random/incompatible/"
+        "wrong-length/empty/num_qubits streams. meas_reg/meas_circ: small circuits (1-3 quantum registers, barriers, other classical "
+        "registers, measurements), identity map or qubit_locations (permuted, repeated, window; list/tuple/numpy/range), refusal classes "
+        "(count mismatch x2, missing register, wrong register size), out-of-range location and duplicate register crashes; the group is "
+        "re-read after the call, the input circuit must be untouched (inplace=False) / the same object (inplace=True). reuse: a group is "
+        "used 2..6 times (register / measurement circuit / _process_outcome on int, 0b, 0x and spaced bit-string outcomes < 2^16) and "
+        "re-read after every step. physics: entangled random preparations (quick: 1..4 qubits, thorough: 1..6), one third ending with "
+        "1-2 resets, suffix appended by the implementation, outcome law from the harness's own numpy simulator, expectation values from "
+        "qiskit Statevector/DensityMatrix. e2e: collection -> every group -> suffix -> law -> implementation's _process_outcome on every "
+        "word -> lookup -> expectation of every original observable. judge runs on every generated case (contract "
+        "judge_accepts_clean_case); flagged or impossible cases are duplicated as always-failing `forced` cases. distinct = distinct Coq "
+        "case literal; non-trivial = successful call with >1 observable / non-empty measurement"
     )
 
 
@@ -885,8 +1177,37 @@ def _key(p):
     return (p[0], tuple(p[1]))
 
 
+def _judge_collection_result(cs, groups, lookup):
+    """cover / compatibility / indices / masks for a built collection; returns problem or None"""
+    lk = {}
+    for p, locs in lookup:
+        if _key(p) in lk:
+            return f"lookup key {p} twice"
+        lk[_key(p)] = locs
+    for p in cs:  # cover
+        locs = lk.get(_key(p))
+        if not locs:
+            return f"observable {p} has no lookup location"
+        for i, j in locs:
+            if not (i < len(groups) and j < len(groups[i][1]) and _key(groups[i][1][j]) == _key(p)):
+                return f"lookup[{p}] names location ({i},{j}) which does not hold it"
+    wanted = {_key(p) for p in cs}
+    for gi, c in enumerate(groups):
+        prob = check_cog_text(c)
+        if prob:
+            return f"group {gi}: {prob}"
+        for j, m in enumerate(c[1]):  # every member is a requested observable and is recorded in the lookup
+            if _key(m) not in wanted:
+                return f"group {gi} contains {m} which was not requested"
+            if [gi, j] not in [list(x) for x in lk.get(_key(m), [])]:
+                return f"location ({gi},{j}) missing from lookup[{m}]"
+    return None
+
+
 def judge(case):
     k = case["kind"]
+    if k == "harness_error":
+        return dict(violates=False, detail=f"harness iteration raised in stream {case.get('stream')}: {case.get('error')}")
     impl = case["impl"]
     if k == "collection":
         cs = case["paulis"]
@@ -895,30 +1216,9 @@ def judge(case):
         if any(p[0] != 0 for p in cs):
             return dict(violates=impl[0] == "ok", detail=f"list with phases answered with {impl[0]} (only phase-free lists are supported)")
         if impl[0] != "ok":
-            return dict(violates=True, detail=f"phase-free Pauli list rejected: {impl}")
-        groups, lookup = impl[1], impl[2]
-        lk = {}
-        for p, locs in lookup:
-            if _key(p) in lk:
-                return dict(violates=True, detail=f"lookup key {p} twice")
-            lk[_key(p)] = locs
-        for p in cs:  # cover
-            locs = lk.get(_key(p))
-            if not locs:
-                return dict(violates=True, detail=f"observable {p} has no lookup location")
-            for i, j in locs:
-                if not (i < len(groups) and j < len(groups[i][1]) and _key(groups[i][1][j]) == _key(p)):
-                    return dict(violates=True, detail=f"lookup[{p}] names location ({i},{j}) which does not hold it")
-        for gi, c in enumerate(groups):
-            prob = check_cog_text(c)
-            if prob:
-                return dict(violates=True, detail=f"group {gi}: {prob}")
-            for j, m in enumerate(c[1]):  # every member is a requested observable and is recorded in the lookup
-                if _key(m) not in {_key(p) for p in cs}:
-                    return dict(violates=True, detail=f"group {gi} contains {m} which was not requested")
-                if [gi, j] not in [list(x) for x in lk.get(_key(m), [])]:
-                    return dict(violates=True, detail=f"location ({gi},{j}) missing from lookup[{m}]")
-        return dict(violates=False, detail="cover, compatibility, indices and masks as stated")
+            return dict(violates=True, detail=f"phase-free Pauli list ({case.get('form')}) rejected: {impl}")
+        prob = _judge_collection_result(cs, impl[1], impl[2])
+        return dict(violates=prob is not None, detail=prob or "cover, compatibility, indices and masks as stated")
     if k == "mgo":
         group, nq = case["group"], case["nq"]
         if not group:
@@ -931,7 +1231,7 @@ def judge(case):
         if impl[0] != "ok":
             return dict(violates=True, detail=f"compatible group rejected: {impl}")
         prob = check_cog_text([impl[1], [[0, p[1]] for p in group], support(impl[1][1]), _masks_text(impl[1][1], group)])
-        return dict(violates=prob is not None, detail=prob or "general observable is the join of the members")
+        return dict(violates=prob is not None, detail=prob or "every member is compatible with the general observable")
     if k == "cog":
         g, ms = case["general"], case["members"]
         if any(m[0] != 0 for m in ms) and all(len(m[1]) == len(g[1]) for m in ms):
@@ -949,8 +1249,15 @@ def judge(case):
         prob = _cog_changed(case["cog_fields"], case["cog_after"], "the call")
         if prob:
             return dict(violates=True, detail=prob)
+    if k in ("meas_reg", "meas_circ"):
+        if case.get("input_untouched") is False:
+            return dict(violates=True, detail="inplace=False, but the caller's circuit was modified (or returned itself)")
+        if case.get("same_object") is False:
+            return dict(violates=True, detail="inplace=True, but a different circuit object was returned")
     if k == "reuse":
         before = case["cog_fields"]
+        if before is None:
+            return dict(violates=True, detail=f"the collection holding the group could not be built: {impl['errors']}")
         for st, after in zip(case["steps"], impl["afters"]):
             prob = _cog_changed(before, after, f"step {st}")
             if prob:
@@ -960,10 +1267,11 @@ def judge(case):
         nbits = len(support(before[0][1])) or 1
         masks_txt = _masks_text(before[0][1], before[1])
         for o, r, pm1 in impl["outs"]:
-            qf = 1 - 2 * (bin(o >> nbits).count("1") & 1)
-            want = [qf * (1 - 2 * (bin(o & ((1 << nbits) - 1) & m).count("1") & 1)) for m in masks_txt]
+            oi = own_outcome_int(o)
+            qf = 1 - 2 * (bin(oi >> nbits).count("1") & 1)
+            want = [qf * (1 - 2 * (bin(oi & ((1 << nbits) - 1) & m).count("1") & 1)) for m in masks_txt]
             if r != want or not pm1:
-                return dict(violates=True, detail=f"_process_outcome({o}) = {r}, expected {want} for general {before[0]} members {before[1]}")
+                return dict(violates=True, detail=f"_process_outcome({o!r}) = {r}, expected {want} for general {before[0]} members {before[1]}")
         return dict(violates=False, detail="group unchanged by use; outcomes decoded as stated")
     if k == "meas_reg":
         inp = case["input"]
@@ -980,6 +1288,8 @@ def judge(case):
         return _judge_meas_circ(case)
     if k == "physics":
         return _judge_physics(case)
+    if k == "e2e":
+        return _judge_e2e(case)
     raise ValueError(k)
 
 
@@ -1033,7 +1343,7 @@ def _judge_meas_circ(case):
     out = impl[1]
     want = simple_data(inp) + _expected_suffix(g, pidx, locs, regs[0])
     ok = simple_data(out) == want and out["cregs"] == inp["cregs"] and out["nc"] == inp["nc"] and out["nq"] == inp["nq"]
-    if ok or len(set(locs)) != len(locs):
+    if ok or len(set(locs)) != len(locs) or simple_data(out)[: len(inp["data"])] != simple_data(inp):
         return dict(violates=not ok, detail=f"suffix {simple_data(out)[len(inp['data']):]} expected {want[len(inp['data']):]}")
     # a different suffix could still measure the right thing: decide by simulation on a fixed entangled state
     try:
@@ -1062,33 +1372,79 @@ def _judge_physics(case):
         return dict(violates=True, detail=f"measurement circuit could not be built: {impl}")
     nq, locs = case["nq"], case["locs"]
     psi = sim_prepare(nq, [(o[0], o[1], o[2]) for o in case["prep"]])
-    law = sim_register_law(psi, nq, impl[1]["suffix"], impl[1]["reg_bits"])
+    try:
+        law = sim_register_law(psi, nq, impl[1]["suffix"], impl[1]["reg_bits"])
+    except ValueError as e:
+        return dict(violates=True, detail=f"appended suffix {impl[1]['suffix']} is not a terminal measurement of distinct qubits: {e}")
     masks = case["cog_fields"][3]
     worst = 0.0
     for j, mem in enumerate(case["cog"][1]):
-        lets = [0] * nq
-        for kk, l in enumerate(mem[1]):
-            lets[locs[kk]] = l
-        want = sim_pauli_expectation(psi, nq, lets)
+        want = sim_pauli_expectation(psi, nq, embed(mem[1], locs, nq))
         got = sum(p * (1 - 2 * (bin(b & masks[j]).count("1") & 1)) for b, p in law)
         dev = abs(want - got)
         if "sv_expect" in case:
             dev = max(dev, abs(case["sv_expect"][j] - got))
         worst = max(worst, dev)
-        if dev > 1e-9:
+        if dev > TOL:
             return dict(violates=True, max_dev=worst,
                         detail=f"member {mem}: decoded {got!r} from the measurement circuit, true expectation {want!r}"
                                f" (qiskit: {case.get('sv_expect', [None] * (j + 1))[j]!r}); suffix {impl[1]['suffix']} masks {masks}")
-    if abs(sum(p for _, p in law) - 1) > 1e-9:
+    if abs(sum(p for _, p in law) - 1) > TOL:
         return dict(violates=True, max_dev=worst, detail="outcome law not normalised")
     return dict(violates=False, max_dev=worst, detail=f"decoded expectation of every member within {worst:.2e}")
 
 
+def _judge_e2e(case):
+    impl, cs = case["impl"], case["paulis"]
+    nq, locs = case["nq"], case["locs"]
+    if impl[0] != "ok":
+        return dict(violates=True, detail=f"phase-free Pauli list ({case.get('form')}) rejected: {impl}")
+    r = impl[1]
+    prob = _judge_collection_result(cs, r["groups"], r["lookup"])
+    if prob:
+        return dict(violates=True, detail=prob)
+    if r["after"] != r["groups"]:
+        return dict(violates=True, detail=f"groups changed by use: {r['after']} instead of {r['groups']}")
+    psi = sim_prepare(nq, [(o[0], o[1], o[2]) for o in case["prep"]])
+    decoded = []  # decoded[i][j]
+    for gi, m in enumerate(r["meas"]):
+        if m[0] != "ok":
+            return dict(violates=True, detail=f"group {gi}: measurement circuit could not be built: {m}")
+        try:
+            law = sim_register_law(psi, nq, m[1]["suffix"], m[1]["reg_bits"])
+        except ValueError as e:
+            return dict(violates=True, detail=f"group {gi}: suffix {m[1]['suffix']} is not a terminal measurement of distinct qubits: {e}")
+        proc = {wd: vals for wd, _o, vals in m[1]["proc"]}
+        acc = [0.0] * len(r["groups"][gi][1])
+        for wd, p in law:
+            vals = proc.get(wd)
+            if vals is None or len(vals) != len(acc) or any(not isinstance(x, float) or x not in (1.0, -1.0) for x in vals):
+                return dict(violates=True, detail=f"group {gi}: _process_outcome on word {wd} gave {vals}")
+            for j, x in enumerate(vals):
+                acc[j] += p * x
+        decoded.append(acc)
+    lk = {_key(p): ls for p, ls in r["lookup"]}
+    worst = 0.0
+    for t, p in enumerate(cs):
+        got = float(np.mean([decoded[i][j] for i, j in lk[_key(p)]]))
+        want = sim_pauli_expectation(psi, nq, embed(p[1], locs, nq))
+        dev = max(abs(got - want), abs(got - case["sv_expect"][t]))
+        worst = max(worst, dev)
+        if dev > TOL:
+            return dict(violates=True, max_dev=worst,
+                        detail=f"observable {p}: {got!r} decoded through lookup {lk[_key(p)]}, true expectation {want!r} (qiskit {case['sv_expect'][t]!r})")
+    return dict(violates=False, max_dev=worst, detail=f"every observable's decoded expectation within {worst:.2e}")
+
+
 def rerun(case):
     k = case["kind"]
+    if k == "harness_error":
+        return case
     if k == "collection":
         if not case["paulis"]:
             return case
+        if "form" not in case:
+            case["form"] = "list" if case.get("aslist") else "PauliList"
         return exec_collection(case)
     if k == "mgo":
         return exec_mgo(case)
@@ -1100,4 +1456,6 @@ def rerun(case):
         return exec_reuse(case)
     if k == "physics":
         return exec_physics(case)
+    if k == "e2e":
+        return exec_e2e(case)
     raise ValueError(k)
